@@ -20,7 +20,14 @@ RULE = ("Histories as generated operation lists over a pool of shared objects (2
         "same numbers in another memory layout give the same result and no exception. (fresh-process) a generated sequence of "
         "2-4 computations (TEMPO, PT-TEMPO, mean-field, Gibbs, PT-TEBD, gradient; d=2..3; unique on/off; different coupling "
         "operators) is run in one process and the last one is repeated in a fresh interpreter: equal within the truncation "
-        "tolerance (catches process-wide caches). Non-trivial: the history re-uses an "
+        "tolerance (catches process-wide caches). (shared-objects) one pool of composite objects per history - a SystemChain "
+        "(2-4 sites; sites with no single-site term, a Hamiltonian, or Hamiltonian + dissipation; Hermitian nn couplings, "
+        "optional nn dissipation), its AugmentedMPS initial state, PtTebdParameters, System, TimeDependentSystem, "
+        "MeanFieldSystem (two systems), ParameterizedSystem, two Baths, TempoParameters, GibbsParameters, a Control, "
+        "PT-TEMPO process tensors - used by a generated sequence of 2-9 calls (PtTebd, get_nn_full_liouvillians, "
+        "MeanFieldTempo, compute_dynamics_with_field, Tempo, compute_dynamics, state_gradient, Gibbs); after every call the "
+        "publicly readable state of every pooled object is bit-identical to before, and the result equals the same call on a "
+        "freshly constructed equal pool. Non-trivial: the history re-uses an "
         "object after a computation or after an attribute change; distinct = distinct canonical JSON.")
 TECHNIQUE = "model-based testing of histories: Hypothesis-generated operation sequences on shared objects against a model of 'freshly constructed equal objects', plus array-layout metamorphic relation and bitwise caller-array invariant"
 LEVEL_TEXT = ("Generated histories of constructions, attribute updates, evaluations and computations on shared objects are replayed "
@@ -371,6 +378,185 @@ def run_case(case):
     return out
 
 
+# ---------------------------------------------------------------- shared composite objects (chains, mean-field systems, controls, ...)
+
+PAULI = ["x", "y", "z", "+", "-"]
+SHARED_OPS = ["tebd", "tebd", "tebd", "chain-read", "mf-tempo", "mf-dynamics", "td-tempo", "td-dynamics", "sys-dynamics", "gradient", "gibbs"]
+
+
+@st.composite
+def s_shared(draw, tier):
+    n = draw(st.integers(2, 4))
+    sites = []
+    for _ in range(n):
+        # a site may carry NO single-site term at all (nothing added), a Hamiltonian, or Hamiltonian + dissipation
+        k = draw(st.sampled_from(["none", "none", "H", "H+diss"]))
+        sites.append({"kind": k, "H": draw(gens.herm_spec(2, 1, 2)), "g": draw(st.sampled_from([0.1, 0.3]))})
+    nn = []
+    for _ in range(n - 1):
+        nn.append({"a": draw(st.sampled_from(PAULI)), "b": draw(st.sampled_from(PAULI)), "c": draw(st.sampled_from([0.25, 0.5, 1.0])),
+                   "herm": True, "diss": draw(st.sampled_from([False, False, True]))})
+    ops = []
+    for _ in range(draw(st.integers(2, 6 if tier == "quick" else 9))):
+        k = draw(st.sampled_from(SHARED_OPS))
+        ops.append({"op": k, "order": draw(st.sampled_from([1, 2])), "dt": draw(st.sampled_from([0.1, 0.2])),
+                    "steps": draw(st.integers(1, 3)), "with_pt": draw(st.booleans())})
+    return {"sites": sites, "nn": nn, "rhos": [draw(gens.dm_spec(2)) for _ in range(n)], "ops": ops,
+            "H": draw(gens.herm_spec(2, 1, 2)), "w": draw(st.sampled_from([0.5, 1.0, 2.0]))}
+
+
+class _Pool:
+    """all objects of one history, built from the case; `_Pool(case)` again gives freshly constructed equal objects"""
+
+    def __init__(self, case):
+        import oqupy
+        from oqupy import operators
+        self.case = case
+        sig = operators.sigma
+        n = len(case["sites"])
+        chain = oqupy.SystemChain([2] * n)
+        for i, sspec in enumerate(case["sites"]):
+            if sspec["kind"] in ("H", "H+diss"):
+                chain.add_site_hamiltonian(i, gens.herm(sspec["H"]))
+            if sspec["kind"] == "H+diss":
+                chain.add_site_dissipation(i, sig("-"), sspec["g"])
+        for i, t in enumerate(case["nn"]):
+            a, b = sig(t["a"]), sig(t["b"])
+            chain.add_nn_hamiltonian(i, t["c"] * a, b)
+            chain.add_nn_hamiltonian(i, t["c"] * a.conj().T, b.conj().T)       # Hermitian in total
+            if t["diss"]:
+                chain.add_nn_dissipation(i, sig("-"), sig("z"), 0.2)
+        self.chain = chain
+        self.rhos = [gens.build_dm(r) for r in case["rhos"]]
+        self.mps = oqupy.AugmentedMPS(self.rhos)
+        self.tebd_par = {(o, dt): oqupy.PtTebdParameters(dt, 1e-9, o) for o in (1, 2) for dt in (0.1, 0.2)}
+        H = gens.herm(case["H"])
+        w = case["w"]
+        self.H = H
+        self.system = oqupy.System(H, gammas=[0.1], lindblad_operators=[sig("-")])
+        self.system_plain = oqupy.System(H)          # GibbsTempo refuses systems with Markovian decay
+        self.tdsys = oqupy.TimeDependentSystem(lambda t: H + 0.3 * np.cos(w * t) * sig("x"),
+                                               gammas=[lambda t: 0.1 + 0.05 * np.sin(w * t)], lindblad_operators=[lambda t: sig("-")])
+        sp, sm = sig("+"), sig("-")
+        self.mfs = oqupy.MeanFieldSystem(
+            [oqupy.TimeDependentSystemWithField(lambda t, a: H + 0.3 * (a * sp + np.conj(a) * sm)),
+             oqupy.TimeDependentSystemWithField(lambda t, a: 0.5 * w * sig("z") + 0.2 * (a * sp + np.conj(a) * sm))],
+            lambda t, states, a: -1j * w * a - 0.1 * a - 0.3j * np.trace(states[0] @ sm) - 0.2j * np.trace(states[1] @ sm))
+        self.psys = oqupy.ParameterizedSystem(lambda u: 0.5 * u * sig("x") + H)
+        self.bath = oqupy.Bath(0.5 * sig("z"), oqupy.PowerLawSD(0.2, 1.0, 3.0, temperature=0.5))
+        self.bath2 = oqupy.Bath(0.5 * sig("x"), oqupy.PowerLawSD(0.1, 1.0, 2.0, temperature=0.0))
+        self.par = {dt: oqupy.TempoParameters(dt=dt, epsrel=1e-8, dkmax=2) for dt in (0.1, 0.2)}
+        self.gpar = oqupy.GibbsParameters(4, 1e-8)
+        self.control = oqupy.Control(2)
+        self.control.add_single(1, operators.left_super(sig("x")), post=False)
+        self.control.add_single(0.15, operators.left_right_super(sig("z"), sig("z")), post=True)
+        self._pts = {}
+
+    def pt(self, dt):
+        import oqupy
+        if dt not in self._pts:
+            self._pts[dt] = oqupy.pt_tempo_compute(self.bath, 0.0, 3.5 * dt, self.par[dt], progress_type="silent")
+        return self._pts[dt]
+
+    def run(self, op):
+        import oqupy
+        kw = dict(progress_type="silent")
+        k, dt, N = op["op"], op["dt"], op["steps"]
+        n = len(self.rhos)
+        if k == "tebd":
+            pts = [self.pt(dt) if (op["with_pt"] and i == 0) else None for i in range(n)]
+            r = oqupy.PtTebd(self.mps, self.chain, pts, self.tebd_par[(op["order"], dt)],
+                             dynamics_sites=list(range(n))).compute(N, **kw)
+            return np.concatenate([np.array(r["dynamics"][i].states).reshape(-1) for i in range(n)] + [np.asarray(r["norm"]).reshape(-1)])
+        if k == "chain-read":
+            return np.concatenate([np.asarray(x).reshape(-1) for x in self.chain.get_nn_full_liouvillians()])
+        if k == "mf-tempo":
+            d = oqupy.MeanFieldTempo(self.mfs, [self.bath, self.bath2], self.par[dt], self.rhos[:2], 0.3 + 0.1j).compute((N + 0.5) * dt, **kw)
+            return np.concatenate([np.array(d.system_dynamics[i].states).reshape(-1) for i in range(2)] + [np.asarray(d.fields).reshape(-1)])
+        if k == "mf-dynamics":
+            d = oqupy.compute_dynamics_with_field(self.mfs, 0.3 + 0.1j, [self.pt(dt), self.pt(dt)], num_steps=N,
+                                                  initial_state_list=self.rhos[:2], control_list=[self.control, self.control], **kw)
+            return np.concatenate([np.array(d.system_dynamics[i].states).reshape(-1) for i in range(2)] + [np.asarray(d.fields).reshape(-1)])
+        if k == "td-tempo":
+            return np.array(oqupy.Tempo(self.tdsys, self.bath, self.par[dt], self.rhos[0], 0.0).compute((N + 0.5) * dt, **kw).states).reshape(-1)
+        if k == "td-dynamics":
+            return np.array(oqupy.compute_dynamics(self.tdsys, self.rhos[0], process_tensor=self.pt(dt), control=self.control,
+                                                   num_steps=N, **kw).states).reshape(-1)
+        if k == "sys-dynamics":
+            return np.array(oqupy.compute_dynamics(self.system, self.rhos[0], process_tensor=[self.pt(dt), self.pt(dt)],
+                                                   control=self.control, num_steps=N, **kw).states).reshape(-1)
+        if k == "gradient":
+            M = len(self.pt(dt))
+            r = oqupy.state_gradient(self.psys, self.rhos[0], self.rhos[1].T.copy(), [self.pt(dt)],
+                                     np.linspace(0.1, 0.8, 2 * M).reshape(2 * M, 1), **kw)
+            return np.asarray(r["gradient"]).reshape(-1)
+        if k == "gibbs":
+            return np.array(oqupy.gibbs_tempo_compute(self.system_plain, self.bath, self.gpar, **kw)).reshape(-1)
+        raise ValueError(k)
+
+    def public_state(self):
+        """everything a caller can read from the pooled objects, as a dict name -> bytes"""
+        st_ = {}
+        for i, x in enumerate(self.chain.site_liouvillians):
+            st_[f"chain.site_liouvillians[{i}]"] = np.asarray(x)
+        for i, x in enumerate(self.chain.nn_liouvillians):
+            st_[f"chain.nn_liouvillians[{i}]"] = np.asarray(x)
+        for i, x in enumerate(self.mps.gammas):
+            st_[f"augmented_mps.gammas[{i}]"] = np.asarray(x)
+        for i, x in enumerate(self.mps.lambdas):
+            st_[f"augmented_mps.lambdas[{i}]"] = np.asarray(x)
+        for i, x in enumerate(self.rhos):
+            st_[f"initial_state[{i}]"] = x
+        for key, par in self.tebd_par.items():
+            st_[f"PtTebdParameters{key}"] = np.array([par.dt, par.epsrel, par.order], dtype=float)
+        for key, par in self.par.items():
+            st_[f"TempoParameters({key})"] = np.array([par.dt, par.epsrel, par.dkmax], dtype=float)
+        st_["system.hamiltonian"] = np.asarray(self.system.hamiltonian)
+        st_["system.liouvillian"] = np.asarray(self.system.liouvillian())
+        st_["system_plain.hamiltonian"] = np.asarray(self.system_plain.hamiltonian)
+        st_["bath.coupling_operator"] = np.asarray(self.bath.coupling_operator)
+        st_["bath.unitary_transform"] = np.asarray(self.bath.unitary_transform)
+        for step in range(3):
+            for post in (False, True):
+                c = self.control.get_controls(step, dt=0.1, start_time=0.0)[1 if post else 0]
+                st_[f"control[{step},{'post' if post else 'pre'}]"] = np.zeros(0) if c is None else np.asarray(c)
+        for dt, pt in self._pts.items():
+            st_[f"pt({dt}).tensors"] = _use_pt("tensors", pt, None)
+        return {k: (v.shape, v.tobytes()) for k, v in st_.items()}
+
+
+def run_shared(case):
+    out = Outcome()
+    pool = _Pool(case)
+    seen = {}
+    reuse = False
+    pure_bond = any(case["sites"][i]["kind"] == "none" and case["sites"][i + 1]["kind"] == "none" for i in range(len(case["sites"]) - 1))
+    out.label("bond-without-site-terms" if pure_bond else "all-bonds-have-site-terms", f"sites={len(case['sites'])}")
+    for i, op in enumerate(case["ops"]):
+        k = op["op"]
+        before = pool.public_state()
+        got = pool.run(op)
+        after = pool.public_state()
+        out.label("shared:" + k)
+        changed = sorted(x for x in before if x in after and before[x] != after[x])
+        if changed:
+            out.fail(f"object-modified-by-use:{k}:{changed[0].split('[')[0].split('(')[0]}",
+                     f"op {i} ({k}): public state changed: {changed[:4]}")
+            return out
+        want = _Pool(case).run(op)
+        scale = max(1.0, float(np.abs(want).max()))
+        tol = (1e-12 if k == "chain-read" else RUN_TO_RUN_TOL) * scale
+        if got.shape != want.shape or not np.abs(got - want).max() <= tol:
+            dev = float(np.abs(got - want).max()) if got.shape == want.shape else float("nan")
+            out.fail(f"shared-objects-differ-from-fresh:{k}", f"op {i} ({k}, earlier ops {[o['op'] for o in case['ops'][:i]]}): "
+                     f"deviation {dev:.3e} from the same call on freshly constructed equal objects")
+            return out
+        reuse |= i > 0
+        seen[k] = seen.get(k, 0) + 1
+    out.nontrivial = reuse
+    return out
+
+
 # ---------------------------------------------------------------- process-wide state: history vs a fresh interpreter
 
 COMPUTE_KINDS = ["tempo", "tempo-unique", "pt", "pt-unique", "mean-field-unique", "gibbs", "pt-tebd", "gradient"]
@@ -488,4 +674,5 @@ def run_fresh(case):
 
 def subs(tier):
     return [Sub("history", run_case, strategy=s_case, budget={"quick": 960, "thorough": 8000}),
+            Sub("shared-objects", run_shared, strategy=s_shared, budget={"quick": 320, "thorough": 3000}),
             Sub("fresh-process", run_fresh, strategy=s_fresh, budget={"quick": 96, "thorough": 800})]
